@@ -14,6 +14,7 @@ def check(run):
         crules.lookup_rules(run, r1, None, ast)
         crules.merge_rules(run, None, r2, ast)
         crules.publish_range_rules(run, r2, ast)
+        crules.record_vptr_rules(run, r2, ast)
         crules.hash_rules(run, None, None, None, None, r2, ast) if False else _allids(run, r2, ast)
         crules.deferred_rules(run, "C10-oneshot", r3, r4, ast)
     run.assumptions += ["equality of dispatch results across flavours is a run-time comparison: not decided; these are the places where a flavour-specific id could be lost"]
